@@ -588,7 +588,7 @@ func (fr *Frame) builtin(st *State, b *ssa.Builtin, cc *ssa.CallCommon, pos toke
 		case KSlice:
 			return &Val{K: KInt, T: intT, X: a.Len}
 		case KStr:
-			l := App("str.len", SInt, a.X)
+			l := App("gstr.len", SInt, a.X)
 			c.addFact(Le(Num(0), l))
 			return &Val{K: KInt, T: intT, X: l}
 		case KArr:
@@ -673,9 +673,9 @@ func (fr *Frame) appendOp(st *State, s, t *Val, tT types.Type) *Val {
 	var n *Term
 	var srcArr func(l leaf, j *Term) *Term // element j of source
 	if t.K == KStr {
-		n = App("str.len", SInt, t.X)
+		n = App("gstr.len", SInt, t.X)
 		c.addFact(Le(Num(0), n))
-		bs := App("str.bytes", SArr(SInt, SInt), t.X)
+		bs := App("gstr.bytes", SArr(SInt, SInt), t.X)
 		srcArr = func(l leaf, j *Term) *Term { return Select(bs, j) }
 	} else {
 		n = t.Len
@@ -742,9 +742,9 @@ func (fr *Frame) copyOp(st *State, d, s *Val, sT types.Type) *Val {
 	var src func(l leaf, j *Term) *Term
 	pre := st.clone()
 	if s.K == KStr {
-		sl = App("str.len", SInt, s.X)
+		sl = App("gstr.len", SInt, s.X)
 		c.addFact(Le(Num(0), sl))
-		bs := App("str.bytes", SArr(SInt, SInt), s.X)
+		bs := App("gstr.bytes", SArr(SInt, SInt), s.X)
 		src = func(l leaf, j *Term) *Term { return Select(bs, j) }
 	} else {
 		sl = s.Len
